@@ -512,6 +512,96 @@ func c07Keywords(c *Ctx) {
 		})
 	}
 	r.Ob("KEYWORDS", "keywords are looked up by strings.ToLower(word)", "pkg/parser/lex.go", ok, "true/false/nil/null and the other keywords are recognised in any letter case")
+	// … and by every word: a word leaves the state as an identifier only on the miss edge of that lookup (or because it
+	// is longer than every keyword). A mode flag or any other test in front of the lookup turns `true`, `false`, `nil`
+	// into identifiers in some context.
+	if f != nil {
+		maxKey := 0
+		for _, pf := range t.PkgFuncs(pParser) {
+			allInstrs(pf, func(in ssa.Instruction) {
+				if mu, ok := in.(*ssa.MapUpdate); ok {
+					if kc, ok := mu.Key.(*ssa.Const); ok && kc.Value != nil && kc.Value.Kind() == constant.String && strings.Contains(mu.Map.Type().String(), "ItemType") {
+						if l := len(constant.StringVal(kc.Value)); l > maxKey {
+							maxKey = l
+						}
+					}
+				}
+			})
+		}
+		var idVal constant.Value
+		if o, ok := t.SSA[pParser].Pkg.Scope().Lookup("ID").(*types.Const); ok {
+			idVal = o.Val()
+		}
+		isLookupMiss := func(ec edgeCond) bool {
+			ex, ok := ec.Cond.(*ssa.Extract)
+			if !ok || ex.Index != 1 || ec.Pol {
+				return false
+			}
+			switch tup := ex.Tuple.(type) {
+			case *ssa.Lookup:
+				return strings.HasSuffix(path(tup.X), "keywords")
+			case *ssa.Call:
+				cal := tup.Call.StaticCallee()
+				if cal == nil || !inModule(cal) {
+					return false
+				}
+				found := false
+				allInstrs(cal, func(in ssa.Instruction) {
+					if lk, ok := in.(*ssa.Lookup); ok && strings.HasSuffix(path(lk.X), "keywords") {
+						found = true
+					}
+				})
+				return found
+			}
+			return false
+		}
+		isTooLong := func(ec edgeCond) bool {
+			b, ok := ec.Cond.(*ssa.BinOp)
+			if !ok {
+				return false
+			}
+			op, x, y := b.Op, b.X, b.Y
+			if _, isC := x.(*ssa.Const); isC { // K op n  ≡  n op' K
+				x, y = y, x
+				op = map[token.Token]token.Token{token.LSS: token.GTR, token.GTR: token.LSS, token.LEQ: token.GEQ, token.GEQ: token.LEQ}[op]
+			}
+			k, ok := constInt(y)
+			if !ok {
+				return false
+			}
+			if !ec.Pol { // the false edge holds the negation
+				op = map[token.Token]token.Token{token.LSS: token.GEQ, token.GTR: token.LEQ, token.LEQ: token.GTR, token.GEQ: token.LSS}[op]
+			}
+			return op == token.GTR && k >= int64(maxKey) || op == token.GEQ && k > int64(maxKey)
+		}
+		nID := 0
+		allInstrs(f, func(in ssa.Instruction) {
+			call, ok := in.(*ssa.Call)
+			if !ok || call.Call.StaticCallee() == nil || fnName(call.Call.StaticCallee()) != "emit" {
+				return
+			}
+			var arg ssa.Value
+			if len(call.Call.Args) > 0 {
+				arg = call.Call.Args[len(call.Call.Args)-1]
+			}
+			kc, isC := arg.(*ssa.Const)
+			if !isC || idVal == nil || kc.Value == nil || !constant.Compare(kc.Value, token.EQL, idVal) {
+				return
+			}
+			nID++
+			good := false
+			var conds []string
+			for _, ec := range controlling(call.Block()) {
+				conds = append(conds, ec.String())
+				if isLookupMiss(ec) || isTooLong(ec) {
+					good = true
+				}
+			}
+			r.Ob("KEYWORDS", fmt.Sprintf("identifier emission #%d happens only when the keyword lookup missed", nID), t.Pos(call.Pos()), good,
+				fmt.Sprintf("emit(ID) must sit on the miss edge of the keyword-table lookup (or under a length test against a constant ≥ %d, the longest keyword); it is controlled by: %s", maxKey, strings.Join(conds, " ∧ ")))
+		})
+		r.FloorN("identifier emissions in lexKeywordOrIdentifier", nID, 1)
+	}
 }
 
 // c07Assemble: the loops that assemble the decoded string from unquoteChar's results. unquoteChar returns a value
